@@ -173,11 +173,11 @@ Proof.
 Qed.
 
 Theorem div_spec a b : canon a -> canon b -> b <> 0 ->
-  exists q, div a b = Some q /\ canon q /\ (val q * val b) mod P = val a.
+  exists q, bfe_div a b = Some q /\ canon q /\ (val q * val b) mod P = val a.
 Proof.
   intros Ca Cb Hb. destruct (inverse_spec b Cb Hb) as [Hy [Cy Vy]].
   set (y := inverse_chain b) in *.
-  unfold div. rewrite Hy. exists (bfe_mul y a). split; [reflexivity|].
+  unfold bfe_div. rewrite Hy. exists (bfe_mul y a). split; [reflexivity|].
   destruct (mul_spec y a Cy Ca) as [C V]. split; [exact C|]. rewrite V.
   rewrite Z.mul_mod_idemp_l by (unfold P; lia).
   replace (val y * val a * val b) with (val a * (val y * val b)) by ring.
